@@ -119,7 +119,10 @@ def exec_case(params):
         pen_idx = [j for j in range(p) if j not in unpen]
         nz = np.any(coef[pen_idx] != 0) if coef.ndim == 1 else np.any(coef[pen_idx] != 0)
         if tag == "above":
-            if nz:
+            # with an intercept / unpenalised features to fit, penalised coefficients may be transiently non-zero before convergence
+            if nz and not (converged or (not fi and not unpen)):
+                pass
+            elif nz:
                 out.append(("nonzero_at_alpha_max", dict(alpha_max=amax, coef=np.asarray(coef).tolist()), "penalised coefficients exactly 0"))
             elif converged:
                 scale = 1 + float(np.max(np.abs(y)))
